@@ -44,8 +44,8 @@ fn template(i: u64) -> Option<Machine> {
 }
 
 fn check(m: &Machine, what: &str) -> Result<&'static str, (String, String)> {
-    let mut mv = m.clone(); mv.real_traps = false; mv.ignore_priv = false;
-    let mut mr = m.clone(); mr.real_traps = true; mr.ignore_priv = false;
+    let mut mv = m.clone(); mv.real_traps = false;
+    let mut mr = m.clone(); mr.real_traps = true;
     let v = run_one(&mv).map_err(|p| (format!("panic:{}", panic_site(&p)), format!("{what} (virtual): {p}")))?;
     let r = run_one(&mr).map_err(|p| (format!("panic:{}", panic_site(&p)), format!("{what} (real): {p}")))?;
     if v.result.is_ok() && v.halted {
@@ -66,18 +66,19 @@ fn check(m: &Machine, what: &str) -> Result<&'static str, (String, String)> {
 }
 
 pub fn run(ctx: &Ctx) -> Report {
-    let mut rep = Report::new("every user-mode program of 1-2 (thorough 3) instructions over the 40-word alphabet (I/O traps, subroutine calls, stack manipulation, loads/stores, faults) followed by HALT, plus 30 templates (stack use, nested subroutines saving R7, GETC/OUT/PUTS/PUTSP/IN, jumps and loads into supervisor memory, RTI, reserved opcode; 3 stack pointers), each run with run_with_limit(3000) under virtual and under real traps: virtual HALT => same display, R0-R5, all user memory, and hit_halt() under real traps; virtual access/privilege/illegal-instruction error => real run prints the virtual output followed by the OS message for that exception (read from the OS image's symbol table) and halts; runs ending otherwise are counted, not judged. non-trivial = judged pairs");
+    let mut rep = Report::new("every user-mode program of 1-2 (thorough 3) instructions over the 40-word alphabet (I/O traps, subroutine calls, stack manipulation, loads/stores, faults) followed by HALT, plus 30 templates (stack use, nested subroutines saving R7, GETC/OUT/PUTS/PUTSP/IN, jumps and loads into supervisor memory, RTI, reserved opcode; 3 stack pointers), each run with run_with_limit(3000) under virtual and under real traps (and again with ignore_privilege set, which leaves the program in user mode): virtual HALT => same display, R0-R5, all user memory, and hit_halt() under real traps; virtual access/privilege/illegal-instruction error => real run prints the virtual output followed by the OS message for that exception (read from the OS image's symbol table) and halts; runs ending otherwise are counted, not judged. non-trivial = judged pairs");
     let maxlen = ctx.pick(2usize, 3usize);
     for len in 1..=maxlen {
         let n = 40u64.pow(len as u32);
-        let r = sweep(ctx, n, 8, |idx, acc| {
-            let (m, words) = program_machine(len, idx, 0);
+        let r = sweep(ctx, n * 2, 8, |k, acc| {
+            let (idx, ign) = (k / 2, k % 2);
+            let (m, words) = program_machine(len, idx, ign * 2);
             acc.evals += 1; acc.transitions += 2; acc.traces += 1;
-            match check(&m, &format!("program {words:x?}")) {
-                Ok(k) => { acc.count(&format!("ended_{k}"), 1); if k != "unjudged" { acc.nontrivial += 1; } acc.outcomes.insert(fnv_str(k)); }
-                Err((sig, d)) => acc.violation(sig, format!("p:{len}:{idx}"), d),
+            match check(&m, &format!("program {words:x?} ignore_privilege={}", ign == 1)) {
+                Ok(k) => { acc.count(&format!("ended_{k}"), 1); if k != "unjudged" { acc.nontrivial += 1; } acc.outcomes.insert(fnv_str(k) ^ ign); }
+                Err((sig, d)) => acc.violation(sig, format!("p:{len}:{idx}:{ign}"), d),
             }
-            acc.sample(idx, ctx.seed, 997, || format!("program {words:x?}"));
+            acc.sample(k, ctx.seed, 997, || format!("program {words:x?} ignore_privilege={}", ign == 1));
         });
         rep.absorb(r);
     }
@@ -97,6 +98,6 @@ pub fn run(ctx: &Ctx) -> Report {
 pub fn replay(case: &str) -> Option<String> {
     let p: Vec<&str> = case.split(':').collect();
     let n = |i: usize| -> Option<u64> { p.get(i)?.parse().ok() };
-    let r = match *p.first()? { "p" => { let (m, w) = program_machine(n(1)? as usize, n(2)?, 0); check(&m, &format!("program {w:x?}")) } "t" => check(&template(n(1)?)?, "template"), _ => return None };
+    let r = match *p.first()? { "p" => { let (m, w) = program_machine(n(1)? as usize, n(2)?, n(3).unwrap_or(0) * 2); check(&m, &format!("program {w:x?}")) } "t" => check(&template(n(1)?)?, "template"), _ => return None };
     r.err().map(|(s, d)| format!("[{s}] {d}"))
 }
